@@ -18,8 +18,9 @@ TRUSTED = [
     "tied every run by function-level and template-level differential runs against the real code (see C16)",
     "Model/EngineSpec states the rules (value / default / verbatim per tag; branch emitted iff its tag is assigned, ELSE iff none was; FOR over list, count, or user tag); "
     "every well-formed generated case compares the real output files with it: a difference is a violation",
-    "proved (Props/C17): the per-tag rule for every line, the conditional automaton for every block, the whole user-tag pass over files of plain lines and blocks, non-interference; "
-    "the FOR clause is covered by the two comparisons only",
+    "proved (Props/C17): the per-tag rule for every line, the conditional automaton for every block, the whole user-tag pass over files of plain lines and blocks, non-interference, "
+    "the FOR loop (once per item in order, FIRST/LAST once, counts, rejection of a single word); not proved: the composition of the passes into one whole-file statement, "
+    "replaceDefault on the opening line of a user-tag driven FOR",
     "user-tag values are rendered with str() (None as ''); FOR over a single word, over an unassigned tag without default or over an empty value is rejected by the generator (exception) and has no meaning by the rules",
     "shipped templates: non-interference is checked directly on the real output (marker values for StateMachineThread / Verbose)",
 ]
